@@ -689,7 +689,7 @@ func (w *c16World) doOp(o c16Op) (res c16Res, problem string) {
 			}
 			done := make(chan struct{})
 			go func() { inst.Wait(); close(done) }()
-			to := 25 * time.Millisecond
+			to := 40 * time.Millisecond
 			if !w.anyServing() {
 				to = time.Second
 			}
